@@ -54,6 +54,33 @@ struct vp_fail
 };
 
 // ---------------------------------------------------------------------------------------
+// Inputs the library declares const can be handed over in memory that really is read-only: a copy that ends flush against an
+// inaccessible page (reads past the end fault as well). A write through the const pointer is then a SEGV instead of going unnoticed.
+#include <sys/mman.h>
+struct RoBlock
+{
+    void *map = nullptr;
+    size_t maplen = 0;
+    void *p = nullptr;
+    RoBlock(void const *src, size_t n, size_t align)
+    {
+        size_t const pg = 4096;
+        size_t pages = (n + pg - 1) / pg;
+        if (!pages) { pages = 1; }
+        maplen = (pages + 1) * pg;
+        map = mmap(nullptr, maplen, PROT_READ | PROT_WRITE, MAP_PRIVATE | MAP_ANONYMOUS, -1, 0);
+        if (map == MAP_FAILED) { map = nullptr; p = nullptr; return; }
+        char *end = (char *)map + pages * pg;
+        size_t off = align ? (n + align - 1) / align * align : n;
+        p = end - off;
+        if (n) { memcpy(p, src, n); }
+        mprotect(map, pages * pg, PROT_READ);
+        mprotect(end, pg, PROT_NONE);
+    }
+    ~RoBlock() { if (map) { munmap(map, maplen); } }
+    RoBlock(RoBlock const &) = delete;
+};
+
 class Tape
 {
 public:
